@@ -325,3 +325,26 @@ int tk12_cbc_seal_ex(const unsigned char *key, int keylen, const unsigned char *
     EVP_CIPHER_CTX_free(c);
     return ok ? hdrlen + 16 + n : -1;
 }
+
+/* raw CBC record: the given plaintext blocks (any content - no MAC, any "padding") encrypted under the key with an explicit IV */
+int tk12_cbc_raw_seal(const unsigned char *key, int keylen, const unsigned char *hdr, int hdrlen, const unsigned char *pt, int ptlen, unsigned char *rec)
+{
+    EVP_CIPHER_CTX *c = EVP_CIPHER_CTX_new();
+    unsigned char iv[16];
+    int i, ol = 0, fl = 0, ok;
+    if (ptlen % 16)
+    {
+        EVP_CIPHER_CTX_free(c);
+        return -1;
+    }
+    for (i = 0; i < 16; i++) iv[i] = (unsigned char) (0x3c + i);
+    memcpy(rec, hdr, (size_t) hdrlen);
+    rec[hdrlen - 2] = (unsigned char) ((16 + ptlen) >> 8); rec[hdrlen - 1] = (unsigned char) (16 + ptlen);
+    memcpy(rec + hdrlen, iv, 16);
+    ok = EVP_EncryptInit_ex(c, keylen == 16 ? EVP_aes_128_cbc() : EVP_aes_256_cbc(), NULL, key, iv) &&
+         EVP_CIPHER_CTX_set_padding(c, 0) &&
+         (ptlen == 0 || EVP_EncryptUpdate(c, rec + hdrlen + 16, &ol, pt, ptlen)) &&
+         EVP_EncryptFinal_ex(c, rec + hdrlen + 16 + ol, &fl);
+    EVP_CIPHER_CTX_free(c);
+    return ok ? hdrlen + 16 + ptlen : -1;
+}
